@@ -1151,6 +1151,11 @@ pub fn wal_path(options: &DbOptions, n: u64) -> std::path::PathBuf {
     crate::file_names::FileNameHandler::new(options.db_path().to_string()).get_wal_file_path(n)
 }
 
+/// Path of temporary file `n` of the database described by `options`.
+pub fn temp_path(options: &DbOptions, n: u64) -> std::path::PathBuf {
+    crate::file_names::FileNameHandler::new(options.db_path().to_string()).get_temp_file_path(n)
+}
+
 /// Numbers of the write-ahead logs currently in the database directory.
 pub fn wal_numbers(options: &DbOptions) -> Vec<u64> {
     let fnh = crate::file_names::FileNameHandler::new(options.db_path().to_string());
